@@ -323,3 +323,54 @@ PROPS["C21"] = dict(
         H("c21_witness_must_fail", kind="witness", tier="thorough", timeout=600, unwindset=U21),
     ],
 )
+
+U09 = {r"first_escape": 72, r"json_escape.*(avx2|sse2|scalar)": 34, r"Sink.*write_str": 14, r"decode_one": 5,
+       r"c09_yq_span|c09_witness": 42, r"write_json_body": 42, r"find": 34}
+
+PROPS["C09"] = dict(
+    module="c09",
+    bounds=("escape scanner: every buffer of 15, 16, 17, 31, 32, 33, 40 and 70 bytes at the listed concrete start offsets, AVX2 and SSE2 paths; "
+            "four writers: every pair of Unicode scalar values (after a fixed ASCII character), output decoded by an RFC 8259 string-body decoder; "
+            "yq span copying: 40-byte ASCII strings with a 3-byte arbitrary ASCII window at offsets 0, 14, 15, 30, 31, 37"),
+    outside="strings of more than 3 arbitrary characters at once; start offsets not listed; aarch64; the `scalar-yaml` build of the scanner",
+    assumptions=["_mm256_subs_epu8/_mm_subs_epu8 replaced by models.rs; util::simd::escape::avx2_enabled fixed or solver-chosen per harness"],
+    harnesses=[
+        H("c09_scan_avx2_n40_s0", timeout=900, unwindset=U09, tier="quick", bounds="all buffers of that length, start as named"),
+        H("c09_scan_avx2_n40_s1", timeout=900, unwindset=U09, tier="thorough", bounds="all buffers of that length, start as named"),
+        H("c09_scan_avx2_n40_s7", timeout=900, unwindset=U09, tier="thorough", bounds="all buffers of that length, start as named"),
+        H("c09_scan_avx2_n40_s8", timeout=900, unwindset=U09, tier="thorough", bounds="all buffers of that length, start as named"),
+        H("c09_scan_avx2_n40_s9", timeout=900, unwindset=U09, tier="quick", bounds="all buffers of that length, start as named"),
+        H("c09_scan_avx2_n40_s24", timeout=900, unwindset=U09, tier="thorough", bounds="all buffers of that length, start as named"),
+        H("c09_scan_avx2_n40_s25", timeout=900, unwindset=U09, tier="quick", bounds="all buffers of that length, start as named"),
+        H("c09_scan_avx2_n40_s39", timeout=900, unwindset=U09, tier="thorough", bounds="all buffers of that length, start as named"),
+        H("c09_scan_avx2_n40_s40", timeout=900, unwindset=U09, tier="quick", bounds="all buffers of that length, start as named"),
+        H("c09_scan_avx2_n40_s41", timeout=900, unwindset=U09, tier="thorough", bounds="all buffers of that length, start as named"),
+        H("c09_scan_avx2_n33_s0", timeout=900, unwindset=U09, tier="quick", bounds="all buffers of that length, start as named"),
+        H("c09_scan_avx2_n32_s0", timeout=900, unwindset=U09, tier="thorough", bounds="all buffers of that length, start as named"),
+        H("c09_scan_avx2_n31_s0", timeout=900, unwindset=U09, tier="thorough", bounds="all buffers of that length, start as named"),
+        H("c09_scan_avx2_n17_s0", timeout=900, unwindset=U09, tier="thorough", bounds="all buffers of that length, start as named"),
+        H("c09_scan_avx2_n16_s0", timeout=900, unwindset=U09, tier="quick", bounds="all buffers of that length, start as named"),
+        H("c09_scan_avx2_n15_s0", timeout=900, unwindset=U09, tier="thorough", bounds="all buffers of that length, start as named"),
+        H("c09_scan_avx2_n70_s3", timeout=900, unwindset=U09, tier="thorough", bounds="all buffers of that length, start as named"),
+        H("c09_scan_sse2_n40_s0", timeout=900, unwindset=U09, tier="thorough", bounds="all buffers of that length, start as named"),
+        H("c09_scan_sse2_n40_s5", timeout=900, unwindset=U09, tier="quick", bounds="all buffers of that length, start as named"),
+        H("c09_scan_sse2_n40_s24", timeout=900, unwindset=U09, tier="thorough", bounds="all buffers of that length, start as named"),
+        H("c09_scan_sse2_n40_s25", timeout=900, unwindset=U09, tier="thorough", bounds="all buffers of that length, start as named"),
+        H("c09_scan_sse2_n33_s0", timeout=900, unwindset=U09, tier="quick", bounds="all buffers of that length, start as named"),
+        H("c09_scan_sse2_n17_s1", timeout=900, unwindset=U09, tier="thorough", bounds="all buffers of that length, start as named"),
+        H("c09_scan_sse2_n16_s0", timeout=900, unwindset=U09, tier="thorough", bounds="all buffers of that length, start as named"),
+        H("c09_scan_sse2_n15_s0", timeout=900, unwindset=U09, tier="quick", bounds="all buffers of that length, start as named"),
+        H("c09_scan_any_n34_s1", timeout=900, unwindset=U09, tier="quick", bounds="all buffers of that length, start as named", replay="trace"),
+        H("c09_writer_jq_2c", timeout=1800, unwindset=U09, bounds="all pairs of scalar values, jq convention", replay="trace"),
+        H("c09_writer_jq_ascii_2c", timeout=1800, unwindset=U09, bounds="all pairs of scalar values, jq ASCII", replay="trace"),
+        H("c09_writer_yq_2c", timeout=1800, unwindset=U09, bounds="all pairs of scalar values, yq convention", replay="trace"),
+        H("c09_writer_yq_ascii_2c", timeout=1800, unwindset=U09, bounds="all pairs of scalar values, yq ASCII", replay="trace"),
+        H("c09_yq_span_at0", timeout=1800, unwindset=U09, tier="thorough", bounds="window at 0"),
+        H("c09_yq_span_at14", timeout=1800, unwindset=U09, bounds="window at 14 (crosses byte 16)"),
+        H("c09_yq_span_at15", timeout=1800, unwindset=U09, tier="thorough", bounds="window at 15, SSE2"),
+        H("c09_yq_span_at30", timeout=1800, unwindset=U09, bounds="window at 30 (crosses byte 32)"),
+        H("c09_yq_span_at31", timeout=1800, unwindset=U09, tier="thorough", bounds="window at 31"),
+        H("c09_yq_span_at37", timeout=1800, unwindset=U09, tier="thorough", bounds="window at 37 (scalar tail), SSE2"),
+        H("c09_witness_must_fail", kind="witness", tier="thorough", timeout=600, unwindset=U09),
+    ],
+)
